@@ -264,6 +264,33 @@ theorem fin_loss_rescheduled (s : Stream) (pn st en : Int) (h : s.outclosed = .s
   simp only [h, SV.ackOrLoss]
   by_cases hr : s.outreset.isSet = true <;> simp [hr]
 
+/-! ### PTO back-off after the handshake (repaired code; not D-tied, witnessed by the net tie) -/
+
+/-- `ptoPeriod = ptoBasePeriod << ptoBackoffCount` (loss.go), in milliseconds. -/
+def ptoPeriodMs (baseMs backoff : Nat) : Nat := baseMs * 2 ^ backoff
+
+/-- the events that move `ptoBackoffCount`: a PTO expiry, an ACK that resets it (any Handshake / 1-RTT
+ACK; a client ignores Initial ACKs), and — repaired code, RFC 9002 §6.2.2 / A.4 — discarding the keys of
+a packet number space. -/
+inductive PtoEv where | expired | ackReset | ackIgnored | keysDiscarded
+deriving DecidableEq, Repr
+
+def ptoStep (k : Nat) : PtoEv → Nat
+  | .expired => k + 1
+  | .ackReset => 0
+  | .ackIgnored => k
+  | .keysDiscarded => 0
+
+/-- Whatever happened during the handshake, once the Handshake keys are discarded (handshake confirmed)
+the first application-data probe timeout is the base period again. -/
+theorem pto_backoff_reset_on_key_discard (evs : List PtoEv) (k0 baseMs : Nat) :
+    ptoPeriodMs baseMs (ptoStep (evs.foldl ptoStep k0) .keysDiscarded) = baseMs := by
+  simp [ptoStep, ptoPeriodMs]
+
+/-- The old behaviour (no reset): 13 unanswered client probes during a lossy handshake and a 26 ms base
+period put the first 1-RTT probe 213 s away, far beyond the 30 s default idle timeout. -/
+example : ptoPeriodMs 26 ((List.replicate 13 PtoEv.expired).foldl ptoStep 0) = 212992 := by decide
+
 /-! ### monitor -/
 section Monitor
 open NetVerif.Model.QuicMonitor
